@@ -710,6 +710,23 @@ fn oracle_group(lines: &[String], resps: &[String], mut fail: impl FnMut(&str, S
             "corrupt" => {
                 if resp == "ok" { corrupted.insert(toks[1].to_string()); }
             }
+            "retry" if resp != "bad-op" => {
+                // the part of the classification the property fixes (and that is reachable):
+                // transport failures, 429, 5xx are transient; 4xx, malformed, bad endpoint are not
+                let code: u32 = toks.get(2).and_then(|c| c.parse().ok()).unwrap_or(0);
+                let want = match toks[1] {
+                    "network" | "timeout" | "ratelimited" | "ratelimited:hint" | "unavailable" => Some(true),
+                    "server" if (500..600).contains(&code) => Some(true),
+                    "status" if (400..500).contains(&code) && code != 429 => Some(false),
+                    "parse" | "invalid-endpoint" => Some(false),
+                    _ => None,
+                };
+                if let Some(w) = want {
+                    if *resp != w.to_string() {
+                        fail("retry-table", format!("should_retry: want {w}: {line} -> {resp}"), i);
+                    }
+                }
+            }
             "q" if resp != "bad-op" => {
                 let Some(c) = cfg.as_ref() else { continue };
                 let ci: usize = toks[1].parse().unwrap();
@@ -863,7 +880,7 @@ const TCP_BEH: [&str; 8] = ["doc", "mime", "bad", "close", "mid", "trunc", "stal
 /// the nine behaviour classes of the quantifier, one representative each (HTTP / TCP spelling)
 const NINE_HTTP: [&str; 9] = ["doc", "mime", "s500", "s429", "s429ra", "s404", "bad", "refuse", "mid"];
 const NINE_TCP: [&str; 9] = ["doc", "mime", "bad", "close", "trunc", "mid", "bad", "refuse", "stall"];
-const EP_KINDS: [&str; 5] = ["versions", "cdns", "bgdl", "summary", "certs"];
+const EP_KINDS: [&str; 6] = ["versions", "cdns", "bgdl", "summary", "certs", "ocsp"];
 
 fn endpoint(kind: &str, n: usize) -> String {
     match kind {
